@@ -713,7 +713,7 @@ class Parser:
         self.check_reserved_name("host_ids", name)
         self.check_duplicate_name("host_ids", name, namespaces=("host_ids",))
 
-        if not isinstance(value, int):
+        if isinstance(value, bool) or not isinstance(value, int):
             raise InvalidTypeError(
                 f"Values in 'host_ids' section must evaluate to int type not {type(value).__name__}. {name}: {value}"
             )
@@ -737,7 +737,7 @@ class Parser:
         self.check_name(name)
         self.check_duplicate_name("module_ids", name, namespaces=("module_ids",))
 
-        if not isinstance(value, int):
+        if isinstance(value, bool) or not isinstance(value, int):
             raise InvalidTypeError(
                 f"Values in 'module_ids' section must evaluate to int type not {type(value).__name__}. {name}: {value} -> {self.current_file}"
             )
@@ -969,7 +969,8 @@ class Parser:
         return ctypes.sizeof(self.get_ctype_cls(s))
 
     def validate_msg_id(self, name: str, msg_id: int):
-        if not isinstance(msg_id, int):
+        # (bool is a subclass of int: a yaml true/false is not an id)
+        if isinstance(msg_id, bool) or not isinstance(msg_id, int):
             raise InvalidTypeError(
                 f"Message definition id must evaluate to int type not {type(msg_id).__name__}. {name}: {msg_id}"
             )
